@@ -39,7 +39,7 @@ sys.path.insert(0, os.path.join(VERIF, "lib"))
 
 TIERS = {
     # per-harness timeout (s), per-process address-space cap (kB), parallel harnesses
-    "quick": {"timeout": 300, "mem_kb": 10_000_000, "jobs": 8},
+    "quick": {"timeout": 600, "mem_kb": 10_000_000, "jobs": 8},
     "thorough": {"timeout": 2400, "mem_kb": 16_000_000, "jobs": 5},
 }
 
@@ -418,7 +418,7 @@ def check_property(prop, tier, only=None, jobs=None, seed=0, skip_smt=False, ski
             for r in data.get("verification_results", {}).get("results", []):
                 results[r["harness_id"]] = r
             for c in data.get("cbmc", []):
-                st = c.get("cbmc_stats", {})
+                st = c.get("cbmc_stats") or {}
                 ev["solver_time_s"] += float(st.get("runtime_decision_procedure_s", 0) or 0)
         build_failed = (not data) or ("error: could not compile" in text) or ("error[E" in text and not results)
         if build_failed and not results:
